@@ -27,3 +27,9 @@ func (c *TCPConn) VerifSendRaw(b []byte) (uint64, error) {
 	defer c.sendMutex.Unlock()
 	return c.sendRaw(b)
 }
+
+// VerifSendRaw puts an arbitrary buffer into the queue of the peer of an
+// in-memory connection, exactly as Send does with a marshalled message.
+func (lc *LocalConn) VerifSendRaw(b []byte) error {
+	return lc.manager.send(lc.remote, b)
+}
